@@ -26,7 +26,7 @@ def gen_cfg(rng, tier: str, big: bool = False, backing: str | None = "maybe") ->
     version = rng.choice([2, 3, 3, 3])
     cbs = [9, 9, 10, 12, 12, 14, 16, 16] if tier == "quick" else [9, 10, 11, 12, 13, 14, 15, 16, 16, 17, 18, 20, 21]
     cb = rng.choice(cbs)
-    if big and rng.random() < 0.35:
+    if big and rng.random() < 0.15:
         cb = rng.choice([20, 21, 21])  # the largest cluster sizes only make sense on large disks
     extl2 = version == 3 and cb >= 14 and rng.random() < 0.5
     if version == 3 and rng.random() < 0.25 and not extl2:
@@ -261,6 +261,12 @@ def render(cfg: dict, roots: list[Root], name: str = "disk.qcow2") -> Image:
 
     # ---- L2 tables, L1 tables ------------------------------------------------------------------------------
     l1_tables = []
+    units_by_table = []
+    for root in roots:
+        d = {}
+        for u in set(root.layer.touch) | set(root.layer.flags):
+            d.setdefault(u // l2_size, []).append(u)
+        units_by_table.append(d)
     for ri, root in enumerate(roots):
         L = root.layer
         l1 = [0] * l1_sizes[ri]
@@ -268,13 +274,15 @@ def render(cfg: dict, roots: list[Root], name: str = "disk.qcow2") -> Image:
             if r2 != ri:
                 continue
             l1[t] = p | COPIED
-            words = []
-            for i in range(l2_size):
-                u = t * l2_size + i
+            # only units this root ever touched can have a non-zero entry: fill those, leave the rest of the table zero
+            step = 2 if extl2 else 1
+            words = [0] * (l2_size * step)
+            for u in units_by_table[ri].get(t, ()):
                 w0, w1 = _l2_entry(cfg, L, u, data_pos.get((ri, u)), comp_desc.get((ri, u)), sub, df is not None)
-                words.append(w0)
+                i = u - t * l2_size
+                words[i * step] = w0
                 if extl2:
-                    words.append(w1)
+                    words[i * step + 1] = w1
             f.write(p, struct.pack(">%dQ" % len(words), *words))
         l1_tables.append(l1)
         f.write(meta_pos[("l1", ri)], struct.pack(">%dQ" % len(l1), *l1))
